@@ -452,6 +452,7 @@ pub fn execute(case: &Case, record_seed: Option<u64>) -> Outcome {
         ));
     }
     let budget = mem_budget(n, case.input.capacity());
+    out.mem_budget = budget;
     if out.violation.is_none() && mem_peak > budget {
         out.violation = Some((
             "MEMORY(peak-budget)".into(),
